@@ -19,7 +19,7 @@ from typing import (
 )
 from collections import deque
 
-from ._typing import ACloseable, R, T, AnyIterable, ADD
+from ._typing import R, T, AnyIterable, ADD
 from ._utility import public_module
 from ._core import (
     ScopedIter,
@@ -180,7 +180,7 @@ class chain(AsyncIterator[T]):
         self._owned_iterators = tuple(
             iterable  # type: ignore[misc]
             for iterable in iterables
-            if isinstance(iterable, AsyncIterator) and isinstance(iterable, ACloseable)
+            if isinstance(iterable, AsyncIterator) and hasattr(iterable, "aclose")
         )
 
     @classmethod
@@ -405,8 +405,8 @@ async def tee_peer_done(
     else:
         return
     # if we are the last peer, try and close the iterator
-    if not peers and isinstance(iterator, ACloseable):
-        await iterator.aclose()
+    if not peers and hasattr(iterator, "aclose"):
+        await iterator.aclose()  # type: ignore
 
 
 class TeePeer(AsyncIterator[T]):
@@ -596,8 +596,8 @@ async def zip_longest(
     finally:
         await fill_iter.aclose()  # type: ignore
         for iterator in async_iters:
-            if isinstance(iterator, ACloseable):
-                await iterator.aclose()
+            if hasattr(iterator, "aclose"):
+                await iterator.aclose()  # type: ignore
 
 
 async def identity(x: T) -> T:
@@ -647,8 +647,8 @@ class _GroupByState(Generic[R, T_co]):
         """Close the underlying iterator"""
         if (group := self.current_group) is not None:
             await group.aclose()
-        if isinstance(self._iterator, ACloseable):
-            await self._iterator.aclose()
+        if hasattr(self._iterator, "aclose"):
+            await self._iterator.aclose()  # type: ignore
 
 
 class _Grouper(AsyncIterator[T_co], Generic[R, T_co]):
